@@ -13,7 +13,8 @@ RULE = (
     "Hypothesis-generated (J, u, norm_eps, reg_eps, dtype): J from ten matrix families (grid, Gaussian, prescribed "
     "SVD, low rank, near-antiparallel pair, duplicated rows, zero rows, stationary, entrywise non-negative, row "
     "norms over 12 decades), 1<=m<=7, 1<=n<=10 (one case in four widened by 90 / 1500 Gaussian or 3000 zero columns), rescaled to "
-    "s = 10^[0.05,9] x norm_eps (70%) or {1e-3,0.5,0.9} x norm_eps (30%); "
+    "s = 10^[0.05,9] x norm_eps (70%) or {1e-3,0.5,0.9} x norm_eps (30%), one case in ten at an extreme scale (s up to "
+    "1e30, or s in [1e-34,1e-22] with norm_eps = 1e-36); "
     "J optionally delivered in a reused tensor object that held another matrix at the previous call of the same instance; "
     "u in {None, uniform, random over 3 decades with optional zeros}; norm_eps in 10^[-8,-1], reg_eps in "
     "10^[-10,-1]. Oracle: exhaustive active-set enumeration (2^m KKT systems, NumPy float64) of "
@@ -61,6 +62,12 @@ def _case(draw):
     rel = draw(st.sampled_from([None, None, None, None, None, None, None, 1e-3, 0.5, 0.9]))
     if rel is None:
         rel = 10.0 ** draw(st.floats(0.05, 9.0))
+    extreme = draw(st.sampled_from([None] * 9 + ["huge", "tiny"]))
+    if extreme == "huge":
+        rel = 10.0 ** draw(st.floats(19.0, 30.0)) / norm_eps  # s up to 1e30: squares of singular values overflow float32
+    elif extreme == "tiny":
+        norm_eps = 1e-36
+        rel = 10.0 ** draw(st.floats(2.0, 14.0))  # s between 1e-34 and 1e-22: squares underflow float32
     J = np.array(mc["J"])
     s = smax(widen(J, extra, xseed))
     if s > 0:
@@ -103,9 +110,11 @@ def run_case(case) -> Outcome:
     s = smax(J)
     if case.get("extra_cols"):
         out.cls("wide")
-    if not np.isfinite(J).all() or (s > 0 and (s * s * n > 1e30 if dtype == "float32" else False)):
+    if not np.isfinite(J).all() or not bool(torch.isfinite(Jt).all()):
         out.excluded = "overflow"
         return out
+    if s > 1e12 or (0 < s < 1e-12):
+        out.cls("extreme-scale")
     norm_eps, reg_eps = case["norm_eps"], case["reg_eps"]
     if case["pref"] is None:
         u = np.full(m, 1.0 / m)
